@@ -255,6 +255,11 @@ def run(rep, tier, seed):
     common.prove(rep)
     rng = common.rng_for(seed, 'C15')
     drv = common.Driver()
+    # the strict BOOLEAN decoder is translated from the source on every run (gen/py2lean.py -> GenK.cerBool;
+    # Props/C15.source_strict_boolean); the translation is run against the real method here
+    from harness import kernels
+    kernels.obligations(rep, ['cerBool', 'decodeLength'])
+    kernels.check(rep, drv, seed, 200 if tier == 'quick' else 10000, which=('cerBool', 'decodeLength'))
     n = 500 if tier == 'quick' else 20000
     rep.rule = ('valid DER encodings of generated values x every element position and depth x single rewrites '
                 '{definite->indefinite, primitive->segmented for each string type incl. BIT STRING, FF->01/7f/fe} decoded by the '
